@@ -37,6 +37,33 @@ theorem update_crash_safe (p : Phys) (changed : Bool) (t : Nat) (f : Fails)
       · exact tail_safe _ t t f (by omega) (safe_wData p t hb) (below_wData p t hb') q hq
     · simp [hfd, crashStates] at hq; subst hq; exact ⟨hs, hb'⟩
 
+/-- **update_data_tie** (`crash_safe_data_meta`): whatever is left behind, a meta record that the next run
+    would accept (its `data_mtime` matches the data record) describes the interface that data record holds.
+    `changed = false` is only ever computed against a trusted old entry whose interface equals the new one
+    (`old_interface_hash == interface_hash`), which is hypothesis `hch`. -/
+theorem update_data_tie (iface : Nat → Nat) (p : Phys) (changed : Bool) (t : Nat) (f : Fails)
+    (hb : Below p t) (hd : DataOk iface p)
+    (hch : changed = false → ∀ dt, p.data = some dt →
+        ∃ t0, p.metaR = some (t0, dt) ∧ iface t0 = iface t) :
+    ∀ q ∈ crashStates p (updateOps true changed t p.data f), DataOk iface q := by
+  intro q hq
+  unfold updateOps dataOps at hq
+  cases changed
+  · cases hdat : p.data with
+    | none => simp [hdat, crashStates] at hq; subst hq; exact hd
+    | some dt =>
+      simp only [hdat, Bool.false_eq_true, if_false, List.nil_append] at hq
+      obtain ⟨t0, hm, hi⟩ := hch rfl dt hdat
+      have h : p.data = some dt → iface dt = iface t := fun h => by rw [hd t0 dt hm h, hi]
+      exact (tail_dataOk iface p t dt f hd h q hq).1
+  · cases hfd : f.data
+    · simp only [hfd, if_true, Bool.false_eq_true, if_false, List.cons_append, List.nil_append] at hq
+      rw [crashStates_cons] at hq
+      rcases hq with rfl | hq
+      · exact hd
+      · exact (tail_dataOk iface _ t t f (dataOk_wData iface p t hb) (fun _ => rfl) q hq).1
+    · simp [hfd, crashStates] at hq; subst hq; exact hd
+
 /-- a kill keeps some prefix of the effective operations -/
 def afterPrefix (p : Phys) (ops : List Op) (k : Nat) : Phys := (ops.take k).foldl apply p
 
